@@ -225,14 +225,15 @@ package queue
 //@   requires u != nil
 //@   ensures res0 == u.latest
 
-// The fixed-response queue is not under contract (it replays a list as given).
+// The fixed-response queue replays a list as given (Next: see the end of this file).
 //@ func NewFixed
-//@   trusted
-//@   ensures res0 != nil
-//@   note body not verified
+//@   props C20 C12
+//@   ensures res0 != nil && fresh(res0) && res0.resp == resp && res0.checkDelay == delay && res0.delay == 0 && res0.lastTS == 0
 //@ func (*FixedQueue).Add
-//@   trusted
-//@   note body not verified
+//@   props C20 C12
+//@   requires q != nil
+//@   modifies q.resp, elems(q.resp)
+//@   ensures [appended-at-the-tail C20] view(q.resp) == old(view(q.resp)) ++ unit(resp)
 
 // ---- what an emitted message means ----------------------------------------------------
 // ValueOf / TypedValueOf read the current value of the message's arm, unchanged.
@@ -277,3 +278,17 @@ package queue
 //@     heap([]int64), heap([]uint64), heap([]float64), heap([]string), heap([]bool), heap(FixedQueue.resp)
 //@   ensures res1 == nil && res0 != nil ==> (isa(res0.(*fpb.Value)) && ArmSet(res0.(*fpb.Value)) && res0.(*fpb.Value).Timestamp != nil) || (isa(res0.(*gpb.SubscribeResponse)) && res0.(*gpb.SubscribeResponse) != nil)
 //@   note what UpdateQueue.Next (verified above) and FixedQueue.Next return; assumed for the interface call
+
+// ---- the fixed replay queue: the configured responses come out in the configured order, each once, and the configured
+// list itself (the queue shares its backing array with the configuration) is never written.
+//@ pred FixedWf(q *FixedQueue) := q != nil && allocated(q.resp) && (forall i int :: 0 <= i && i < len(q.resp) ==> q.resp[i] != nil
+//@   && (q.resp[i].Response != nil ==> payload(q.resp[i].Response) != nil)
+//@   && (isa(q.resp[i].Response.(*gpb.SubscribeResponse_Update)) ==> q.resp[i].Response.(*gpb.SubscribeResponse_Update).Update != nil))
+//@ func (*FixedQueue).Next
+//@   props C20 C12
+//@   arith wrap
+//@   requires FixedWf(q)
+//@   modifies q.resp, q.delay, q.lastTS
+//@   ensures [an-exhausted-queue-yields-nothing C20] old(len(q.resp)) == 0 ==> res0 == nil && res1 == nil && len(q.resp) == 0
+//@   ensures [responses-replayed-in-the-configured-order C20] old(len(q.resp)) > 0 ==> res1 == nil && res0 == box(old(q.resp[0])) && view(q.resp) == sub(old(view(q.resp)), 1, old(len(q.resp)))
+//@   ensures [still-well-formed C12] FixedWf(q)
